@@ -435,3 +435,924 @@ Proof.
     destruct (isb 102 b); [apply (LIT lit_false); auto|].
     destruct (isb 110 b); [apply (LIT lit_null); auto|discriminate].
 Qed.
+
+Lemma string_body_le : forall l k, string_body l = Some k -> (k <= length l)%nat.
+Proof.
+  assert (B : forall n l, (length l <= n)%nat -> forall k, string_body l = Some k -> (k <= length l)%nat).
+  { induction n as [|n IH]; intros l L k E.
+    - destruct l; [discriminate|cbn in L; lia].
+    - destruct l as [|b r]; [discriminate|]. cbn [string_body] in E. cbn [length] in *.
+      destruct (isb 34 b); [inversion E; lia|].
+      destruct (isb 92 b).
+      + destruct r as [|e r1]; [discriminate|].
+        destruct (simple_escape e).
+        * destruct (string_body r1) as [k1|] eqn:E1; [|discriminate]. inversion E. apply IH in E1; cbn [length] in *; lia.
+        * destruct (isb 117 e); [|discriminate].
+          destruct r1 as [|h1 [|h2 [|h3 [|h4 r2]]]]; try discriminate.
+          destruct (r_is_hex h1 && r_is_hex h2 && r_is_hex h3 && r_is_hex h4); [|discriminate].
+          destruct (string_body r2) as [k1|] eqn:E1; [|discriminate]. inversion E. apply IH in E1; cbn [length] in *; lia.
+      + destruct (r_is_ctl b); [discriminate|].
+        destruct (string_body r) as [k1|] eqn:E1; [|discriminate]. inversion E. apply IH in E1; lia. }
+  intros l k E. exact (B (length l) l (le_n _) k E).
+Qed.
+
+Section Fast.
+  Variable md : Z.
+  Variable start : sstate.
+  Variable data : list byte.
+  Variable h : handler.
+
+  Notation ReachS := (Reach md true start data h).
+  Notation EndsS := (Ends md true start data h).
+  Notation AtS := (At data).
+  Notation InvS := (Inv md true).
+
+  Definition fastb (fc : ctx) : Prop := fc = CFArr \/ fc = CFObj.
+  Definition opener (fc : ctx) : Z := match fc with CFArr => 91 | _ => 123 end.
+
+  Lemma body_step : forall fc b, fastb fc ->
+    strans true (fc, PBody) b =
+    if isb 34 b then ([], Some (fc, PTok TStr))
+    else if isb (closer fc) b then ([URet], Some (fc, PDone))
+    else if isb (opener fc) b then ([UCall true 0 (enc (fc, PBody)) (enc (fc, PBody))], Some (fc, PBody))
+    else ([], Some (fc, PBody)).
+  Proof. intros fc b [->| ->]; reflexivity. Qed.
+
+  Lemma body_plain : forall fc b, fastb fc -> plainb b = true -> strans true (fc, PBody) b = ([], Some (fc, PBody)).
+  Proof.
+    intros fc b F P. rewrite (body_step fc b F). unfold plainb in P.
+    repeat (apply andb_true_iff in P; destruct P as [P ?]).
+    apply negb_true_iff in P. repeat match goal with H : negb _ = true |- _ => apply negb_true_iff in H end.
+    rewrite P. destruct F as [->| ->]; unfold closer, opener, ch_rbrack, ch_rbrace;
+      repeat match goal with H : isb _ b = false |- _ => rewrite H; clear H end; reflexivity.
+  Qed.
+
+  Definition plainf (fc : ctx) (b : byte) : bool :=
+    negb (isb 34 b) && negb (isb (closer fc) b) && negb (isb (opener fc) b).
+  Lemma body_plainf : forall fc b, fastb fc -> plainf fc b = true -> strans true (fc, PBody) b = ([], Some (fc, PBody)).
+  Proof.
+    intros fc b F P. rewrite (body_step fc b F). unfold plainf in P.
+    apply andb_true_iff in P. destruct P as [P P3]. apply andb_true_iff in P. destruct P as [P1 P2].
+    apply negb_true_iff in P1, P2, P3. rewrite P1, P2, P3. reflexivity.
+  Qed.
+
+  (** [Scans fc dd l n]: the fast body reads the first [n] bytes of [l] and is back between
+      strings with the call stack it had, whatever stack of depth at most [dd] that was *)
+  Definition Scans (fc : ctx) (dd : Z) (l : list byte) (n : nat) : Prop :=
+    (n <= length l)%nat /\
+    forall s sg, AtS s l -> InvS s sg -> len sg <= dd ->
+      exists s', ReachS (fc, PBody) s (fc, PBody) s' /\ s_p s' = s_p s + Z.of_nat n /\ InvS s' sg /\ frame s' = frame s.
+
+  Lemma Scans_0 : forall fc dd l, Scans fc dd l 0.
+  Proof.
+    intros fc dd l. split; [lia|]. intros s sg H I L. exists s. split; [apply Reach_refl|]. split; [lia|]. auto.
+  Qed.
+
+  Lemma Scans_add : forall fc dd l a b, Scans fc dd l a -> Scans fc dd (skipn a l) b -> Scans fc dd l (a + b).
+  Proof.
+    intros fc dd l a b [LA SA] [LB SB]. rewrite skipn_length in LB. split; [lia|].
+    intros s sg H I L. destruct (SA s sg H I L) as (s1 & R1 & P1 & I1 & F1).
+    pose proof (At_move data s s1 l a H P1 LA) as H1.
+    destruct (SB s1 sg H1 I1 L) as (s2 & R2 & P2 & I2 & F2).
+    exists s2. split; [eapply Reach_trans; eauto|]. split; [lia|]. split; [auto|congruence].
+  Qed.
+
+  Lemma Scans_mono : forall fc dd dd' l n, dd <= dd' -> Scans fc dd' l n -> Scans fc dd l n.
+  Proof. intros fc dd dd' l n L [LN S]. split; [exact LN|]. intros s sg H I LS. apply S; auto. lia. Qed.
+
+  Lemma Scans_plain : forall fc dd n l, fastb fc -> (n <= length l)%nat -> forallb plainb (firstn n l) = true ->
+    Scans fc dd l n.
+  Proof.
+    intros fc dd n. induction n as [|n IH]; intros l F L P; [apply Scans_0|].
+    destruct l as [|b r]; [cbn in L; lia|]. cbn in P. apply andb_true_iff in P. destruct P as [PB PR].
+    change (S n) with (1 + n)%nat. apply Scans_add; [|cbn [skipn]; apply IH; [exact F|cbn [length] in L; lia|exact PR]].
+    split; [cbn; lia|]. intros s sg H I LS. exists (adv s 1). split; [|split; [reflexivity|split; [apply Inv_adv; exact I|reflexivity]]].
+    eapply Reach_silent; [exact H|apply body_plain; auto].
+  Qed.
+
+  Lemma Scans_ws : forall fc dd l, fastb fc -> Scans fc dd l (ws l).
+  Proof.
+    intros fc dd l F. apply Scans_plain; [exact F|apply ws_le|].
+    eapply forallb_impl; [apply ws_plain|apply cw_forall].
+  Qed.
+
+  Lemma Scans_1 : forall fc dd b r, fastb fc -> plainb b = true -> Scans fc dd (b :: r) 1.
+  Proof. intros fc dd b r F P. apply Scans_plain; [exact F|cbn; lia|cbn; rewrite P; reflexivity]. Qed.
+  Lemma Scans_1f : forall fc dd b r, fastb fc -> plainf fc b = true -> Scans fc dd (b :: r) 1.
+  Proof.
+    intros fc dd b r F P. split; [cbn; lia|]. intros s sg H I LS. exists (adv s 1).
+    split; [|split; [reflexivity|split; [apply Inv_adv; exact I|reflexivity]]].
+    eapply Reach_silent; [exact H|apply body_plainf; auto].
+  Qed.
+
+  (** a string token *)
+  Lemma string_scans : forall fc dd l n, fastb fc -> string_tok l = Some n -> Scans fc dd l n.
+  Proof.
+    intros fc dd l n F ST. unfold string_tok in ST. destruct l as [|b r]; [discriminate|].
+    destruct (isb 34 b) eqn:Q; [|discriminate].
+    destruct (string_body r) as [k|] eqn:SB; [|discriminate]. inversion ST; subst n.
+    assert (G : forall s, AtS s r ->
+              ReachS (fc, PTok TStr) s (fc, PBody) (adv s k) /\ (k <= length r)%nat).
+    { intros s H.
+      pose proof (string_run md true start data h fc (fun t => (fc, PTok t)) (fc, PBody) pdom) as SR.
+      assert (AF : after fc = PBody) by (destruct F as [->| ->]; reflexivity).
+      specialize (SR ltac:(intros t b0 D; rewrite <- AF; apply ptok_go; [apply negb_true_iff; exact D|destruct F as [->| ->]; reflexivity])
+                     (pdom_eof fc) ltac:(repeat split; reflexivity) (length r) r s (le_n _) H).
+      rewrite SB in SR. exact SR. }
+    split.
+    - cbn [length]. pose proof (string_body_le r k SB). lia.
+    - intros s sg H I LS. pose proof (At_adv1 data _ _ _ H) as H1. destruct (G _ H1) as [R2 K].
+      exists (adv s (S k)). split; [|split; [reflexivity|split; [apply Inv_adv; exact I|reflexivity]]].
+      replace (adv s (S k)) with (adv (adv s 1) k) by (rewrite adv_adv; reflexivity).
+      eapply Reach_trans; [|exact R2]. eapply Reach_silent; [exact H|]. rewrite (body_step fc b F), Q. reflexivity.
+  Qed.
+
+  Lemma scalar_scans : forall fc dd l n, fastb fc -> scalar_tok l = Some n -> Scans fc dd l n.
+  Proof.
+    intros fc dd l n F ST. destruct l as [|b r]; [discriminate|].
+    destruct (isb 34 b) eqn:Q.
+    - apply string_scans; auto. unfold scalar_tok in ST. rewrite Q in ST. exact ST.
+    - destruct (scalar_plain b r n ST Q) as [L P]. apply Scans_plain; auto.
+  Qed.
+
+  Definition BodyOK (fc : ctx) (item : list byte -> option nat) (dd : Z) : Prop :=
+    forall l n, item l = Some n -> Scans fc dd l n.
+
+  (** items: everything up to the closing byte is scanned; the closing byte is found there *)
+  Lemma items_scans : forall fc dd item close, fastb fc -> BodyOK fc item dd ->
+    forall k l n, items k item close l = Some n ->
+    exists m cb rest, n = S m /\ Scans fc dd l m /\ skipn m l = cb :: rest /\ isb close cb = true.
+  Proof.
+    intros fc dd item close F IO. induction k as [|k IH]; intros l n E; [discriminate|].
+    cbn [items] in E. destruct (item l) as [n1|] eqn:I1; [|discriminate].
+    pose proof (IO l n1 I1) as S1.
+    set (l1 := skipn n1 l) in *. set (w := ws l1) in *.
+    assert (S2 : Scans fc dd l (n1 + w)) by (apply Scans_add; [exact S1|apply Scans_ws; exact F]).
+    destruct (skipn w l1) as [|c0 r1] eqn:K; [discriminate|].
+    assert (K' : skipn (n1 + w) l = c0 :: r1).
+    { rewrite Nat.add_comm, <- skipn_skipn. exact K. }
+    destruct (isb 44 c0) eqn:CM.
+    - set (w1 := ws r1) in *.
+      destruct (items k item close (skipn w1 r1)) as [n2|] eqn:I2; [|discriminate].
+      cbn [option_map] in E. inversion E; subst n.
+      destruct (IH _ _ I2) as (m2 & cb & rest & -> & S4 & K4 & CB).
+      assert (SK : skipn (n1 + w + 1 + w1) l = skipn w1 r1).
+      { replace (n1 + w + 1 + w1)%nat with (w1 + (1 + (n1 + w)))%nat by lia.
+        rewrite <- (skipn_skipn w1 (1 + (n1 + w))), <- (skipn_skipn 1 (n1 + w)), K'. reflexivity. }
+      exists (n1 + w + 1 + w1 + m2)%nat, cb, rest. split; [lia|]. split; [|split; [|exact CB]].
+      + apply Scans_add; [|rewrite SK; exact S4].
+        apply Scans_add; [|replace (skipn (n1 + w + 1) l) with r1; [apply Scans_ws; exact F|]].
+        * apply Scans_add; [exact S2|]. rewrite K'. apply Scans_1; [exact F|apply comma_plain; exact CM].
+        * replace (n1 + w + 1)%nat with (1 + (n1 + w))%nat by lia. rewrite <- skipn_skipn, K'. reflexivity.
+      + replace (n1 + w + 1 + w1 + m2)%nat with (m2 + (n1 + w + 1 + w1))%nat by lia.
+        rewrite <- skipn_skipn, SK. exact K4.
+    - destruct (isb close c0) eqn:CL; [|discriminate]. inversion E; subst n.
+      exists (n1 + w)%nat, c0, r1. split; [lia|]. auto.
+  Qed.
+
+  Lemma container_scans : forall fc dd item close f, fastb fc -> BodyOK fc item dd ->
+    forall r n, container f item close r = Some n ->
+    exists m cb rest, n = S m /\ Scans fc dd r m /\ skipn m r = cb :: rest /\ isb close cb = true.
+  Proof.
+    intros fc dd item close f F IO r n E. unfold container in E. set (w := ws r) in *.
+    destruct (skipn w r) as [|c0 r1] eqn:K; [discriminate|].
+    destruct (isb close c0) eqn:CL.
+    - inversion E; subst n. exists w, c0, r1. split; [lia|]. split; [apply Scans_ws; exact F|]. auto.
+    - destruct (items f item close (c0 :: r1)) as [n2|] eqn:I2; [|discriminate]. inversion E; subst n.
+      destruct (items_scans fc dd item close F IO _ _ _ I2) as (m2 & cb & rest & -> & S2 & K2 & CB).
+      exists (w + m2)%nat, cb, rest. split; [lia|]. split; [|split; [|exact CB]].
+      + apply Scans_add; [apply Scans_ws; exact F|rewrite K; exact S2].
+      + rewrite Nat.add_comm, <- skipn_skipn, K. exact K2.
+  Qed.
+
+  Lemma member_scans : forall fc dd val, fastb fc -> BodyOK fc val dd -> BodyOK fc (member val) dd.
+  Proof.
+    intros fc dd val F VO l n E. unfold member in E.
+    destruct (string_tok l) as [k|] eqn:ST; [|discriminate].
+    pose proof (string_scans fc dd l k F ST) as S1.
+    set (l1 := skipn k l) in *. set (w := ws l1) in *.
+    destruct (skipn w l1) as [|c0 r1] eqn:K; [discriminate|].
+    destruct (isb 58 c0) eqn:CO; [|discriminate].
+    set (w1 := ws r1) in *.
+    destruct (val (skipn w1 r1)) as [n2|] eqn:V; [|discriminate]. inversion E; subst n.
+    assert (K' : skipn (k + w) l = c0 :: r1) by (rewrite Nat.add_comm, <- skipn_skipn; exact K).
+    assert (SK : skipn (k + w + 1 + w1) l = skipn w1 r1).
+    { replace (k + w + 1 + w1)%nat with (w1 + (1 + (k + w)))%nat by lia.
+      rewrite <- (skipn_skipn w1 (1 + (k + w))), <- (skipn_skipn 1 (k + w)), K'. reflexivity. }
+    apply Scans_add; [|rewrite SK; apply VO; exact V].
+    apply Scans_add; [|replace (skipn (k + w + 1) l) with r1; [apply Scans_ws; exact F|]].
+    - apply Scans_add; [apply Scans_add; [exact S1|apply Scans_ws; exact F]|].
+      rewrite K'. apply Scans_1; [exact F|apply colon_plain; exact CO].
+    - replace (k + w + 1)%nat with (1 + (k + w))%nat by lia. rewrite <- skipn_skipn, K'. reflexivity.
+  Qed.
+
+  (** a bracketed value inside a fast body: its own kind of bracket is a call and a return,
+      the other kind is two plain bytes *)
+  Lemma nested_scans : forall fc d b r m cb rest ob close, fastb fc ->
+    ((ob = 91 /\ close = 93) \/ (ob = 123 /\ close = 125)) ->
+    isb ob b = true -> (md <=? d) = false ->
+    Scans fc (d + 1) r m -> skipn m r = cb :: rest -> isb close cb = true ->
+    Scans fc d (b :: r) (S (S m)).
+  Proof.
+    intros fc d b r m cb rest ob close F OC OB LIM [LM SM] K CB.
+    assert (LR : (m < length r)%nat).
+    { assert (LK : length (skipn m r) = length (cb :: rest)) by (rewrite K; reflexivity).
+      rewrite skipn_length in LK. cbn in LK. lia. }
+    assert (OWN : (ob = opener fc /\ close = closer fc) \/ (plainf fc b = true /\ plainf fc cb = true)).
+    { apply Z.eqb_eq in OB, CB. unfold plainf, isb.
+      destruct F as [->| ->]; destruct OC as [[-> ->]|[-> ->]]; cbn [opener closer ch_rbrack ch_rbrace];
+        try (left; split; reflexivity); right; rewrite OB, CB; split; reflexivity. }
+    destruct OWN as [[-> ->]|[PB PC]].
+    - (* own bracket: call, body, return *)
+      split; [cbn [length]; lia|]. intros s sg H I LS.
+      assert (NQ : isb 34 b = false /\ isb (closer fc) b = false).
+      { apply Z.eqb_eq in OB. unfold isb. rewrite OB. destruct F as [->| ->]; split; reflexivity. }
+      destruct NQ as [NQ NC].
+      assert (T : strans true (fc, PBody) b = ([UCall true 0 (enc (fc, PBody)) (enc (fc, PBody))], Some (fc, PBody))).
+      { rewrite (body_step fc b F), NQ, NC, OB. reflexivity. }
+      pose proof (call_step md true start data h _ _ (fc, PBody) (fc, PBody) s sg b r H T I) as CS.
+      assert (LE : (md <=? len sg) = false) by (apply Z.leb_gt; apply Z.leb_gt in LIM; lia).
+      rewrite LE in CS. cbn [andb] in CS. destruct CS as (s1 & R1 & P1 & I1 & F1).
+      assert (H1 : AtS s1 r) by (apply (At_move data s s1 (b :: r) 1 H P1); cbn; lia).
+      destruct (SM s1 _ H1 I1 ltac:(rewrite len_cons; lia)) as (s2 & R2 & P2 & I2 & F2).
+      pose proof (At_move data s1 s2 r m H1 P2 LM) as H2. rewrite K in H2.
+      assert (T2 : strans true (fc, PBody) cb = ([URet], Some (fc, PDone))).
+      { rewrite (body_step fc cb F), CB.
+        assert (Q2 : isb 34 cb = false) by (apply Z.eqb_eq in CB; unfold isb; rewrite CB; destruct F as [->| ->]; reflexivity).
+        rewrite Q2. reflexivity. }
+      destruct (ret_step md true start data h _ _ (fc, PBody) s2 sg cb rest H2 T2 I2) as (s3 & R3 & P3 & I3 & F3).
+      exists s3. split; [eapply Reach_trans; [exact R1|]; eapply Reach_trans; [exact R2|exact R3]|].
+      split; [lia|]. split; [exact I3|congruence].
+    - (* the other kind: plain bytes *)
+      replace (S (S m)) with (1 + (m + 1))%nat by lia.
+      apply Scans_add; [apply Scans_1f; auto|]. cbn [skipn].
+      apply Scans_add; [apply (Scans_mono fc d (d + 1)); [lia|split; auto]|].
+      rewrite K. apply Scans_1f; auto.
+  Qed.
+
+  Theorem value_scans : forall fc, fastb fc -> forall k d l n, value_len md k d l = Some n -> Scans fc d l n.
+  Proof.
+    intros fc F. induction k as [|k IH]; intros d l n E; [discriminate|].
+    cbn [value_len] in E. destruct l as [|b r]; [discriminate|].
+    destruct (isb 91 b) eqn:A.
+    - destruct (md <=? d) eqn:LIM; [discriminate|].
+      destruct (container k (value_len md k (d + 1)) 93 r) as [m|] eqn:C; [|discriminate]. inversion E; subst n.
+      destruct (container_scans fc (d + 1) _ 93 k F (fun l n => IH (d + 1) l n) r m C) as (m' & cb & rest & -> & S1 & K & CB).
+      eapply (nested_scans fc d b r m' cb rest 91 93); eauto.
+    - destruct (isb 123 b) eqn:O.
+      + destruct (md <=? d) eqn:LIM; [discriminate|].
+        destruct (container k (member (value_len md k (d + 1))) 125 r) as [m|] eqn:C; [|discriminate]. inversion E; subst n.
+        destruct (container_scans fc (d + 1) _ 125 k F (member_scans fc (d + 1) _ F (fun l n => IH (d + 1) l n)) r m C)
+          as (m' & cb & rest & -> & S1 & K & CB).
+        eapply (nested_scans fc d b r m' cb rest 123 125); eauto.
+      + apply scalar_scans; auto.
+  Qed.
+End Fast.
+
+Lemma tok_first_none : forall b r, tok_first b = None -> scalar_tok (b :: r) = None.
+Proof.
+  intros b r H. unfold tok_first in H. unfold scalar_tok.
+  change (is ch_quote b) with (isb 34 b) in H. change (is ch_minus b) with (isb 45 b) in H.
+  unfold is, ch_zero in H. change (is_digit19 b) with (r_is_digit19 b) in H.
+  change (bz b =? 116) with (isb 116 b) in H. change (bz b =? 102) with (isb 102 b) in H. change (bz b =? 110) with (isb 110 b) in H.
+  rewrite digit_split.
+  destruct (isb 34 b); [discriminate|]. destruct (isb 45 b); [discriminate|].
+  destruct (bz b =? 48); [discriminate|]. destruct (r_is_digit19 b); [discriminate|]. cbn [orb].
+  destruct (isb 116 b); [discriminate|]. destruct (isb 102 b); [discriminate|]. destruct (isb 110 b); [discriminate|reflexivity].
+Qed.
+
+(** SkipValueFast's specification machine: wherever the reference (hence SkipValue) finds a value,
+    it succeeds with the same offset (C11), for any depth limit, handler, stack and destination *)
+Theorem fast_agrees_md : forall md data h stack dst n, 0 <= md -> skip_ref_md md data = Some n ->
+  exists s, prun md skipfast_spec data h stack dst = ODone n None s.
+Proof.
+  intros md data h stack dst n MD SR. set (q0 := (CFTop, PStart)). set (s0 := init_st stack dst).
+  pose proof (At_init data stack dst) as H0. fold s0 in H0.
+  assert (R0 : Reach md true q0 data h q0 s0 q0 (adv s0 (ws data))).
+  { apply ws_loop; auto. intros b W. cbn. rewrite W. reflexivity. }
+  pose proof (At_adv data s0 data (ws data) H0 (ws_le data)) as H1.
+  assert (I1 : Inv md true (adv s0 (ws data)) []).
+  { unfold Inv. cbn. unfold len. cbn. repeat split; auto; lia. }
+  unfold skip_ref_md in SR. set (w := ws data) in *.
+  destruct (value_len md (length data + 2) 0 (skipn w data)) as [n'|] eqn:VL; [|discriminate].
+  cbn [option_map] in SR. inversion SR; subst n. clear SR.
+  assert (FIN : forall s' l', At data s' l' -> s_err s' = None -> s_p s' = Z.of_nat (w + n') ->
+                Reach md true q0 data h q0 (adv s0 w) (CFTop, PDone) s' ->
+                exists s, prun md skipfast_spec data h stack dst = ODone (Z.of_nat (w + n')) None s).
+  { intros s' l' H' E' P' R'.
+    assert (E : Ends md true q0 data h q0 s0 (fun o => o = ODone (s_p s') (s_err s') s')).
+    { eapply Reach_Ends; [exact R0|]. eapply Reach_Ends; [exact R'|]. eapply done_ends. exact H'. }
+    apply (Ends_prun md true q0 data h stack dst) in E. exists s'. rewrite <- P', <- E'. exact E. }
+  replace (length data + 2)%nat with (S (length data + 1)) in VL by lia. cbn [value_len] in VL.
+  destruct (skipn w data) as [|b r] eqn:L; [discriminate|].
+  pose proof (ws_next _ _ _ L) as NW.
+  assert (VS : strans true q0 b = value_start true CFTop b) by (cbn; rewrite NW; reflexivity).
+  (* containers *)
+  assert (NEST : forall fc item ob close m, fastb fc -> ((ob = 91 /\ close = 93) \/ (ob = 123 /\ close = 125)) ->
+             ob = opener fc -> close = closer fc ->
+             strans true q0 b = ([UCall true 0 (enc (CFTop, PDone)) (enc (fc, PBody))], Some (CFTop, PDone)) ->
+             BodyOK md q0 data h fc item 1 ->
+             (md <=? 0) = false -> container (length data + 1) item close r = Some m -> n' = S m ->
+             exists s, prun md skipfast_spec data h stack dst = ODone (Z.of_nat (w + n')) None s).
+  { intros fc item ob close m F OC OO CC T IO LIM C EN.
+    destruct (container_scans md q0 data h fc 1 item close _ F IO r m C) as (m' & cb & rest & -> & [LM SM] & K & CB).
+    pose proof (call_step md true q0 data h q0 _ (CFTop, PDone) (fc, PBody) (adv s0 w) [] b r H1 T I1) as CS.
+    change (len (@nil Z)) with 0 in CS. rewrite LIM in CS. cbn [andb] in CS.
+    destruct CS as (s1 & R1 & P1 & IV1 & F1).
+    assert (HH1 : At data s1 r) by (apply (At_move data _ s1 (b :: r) 1 H1 P1); cbn; lia).
+    destruct (SM s1 _ HH1 IV1 ltac:(rewrite len_cons; change (len (@nil Z)) with 0; lia)) as (s2 & R2 & P2 & IV2 & F2).
+    pose proof (At_move data s1 s2 r m' HH1 P2 LM) as HH2. rewrite K in HH2.
+    assert (T2 : strans true (fc, PBody) cb = ([URet], Some (fc, PDone))).
+    { rewrite (body_step fc cb F). subst close. rewrite CB.
+      assert (Q2 : isb 34 cb = false) by (apply Z.eqb_eq in CB; unfold isb; rewrite CB; destruct F as [->| ->]; reflexivity).
+      rewrite Q2. reflexivity. }
+    destruct (ret_step md true q0 data h _ _ (CFTop, PDone) s2 [] cb rest HH2 T2 IV2) as (s3 & R3 & P3 & IV3 & F3).
+    apply (FIN s3 rest).
+    - apply (At_move data s2 s3 (cb :: rest) 1 HH2 P3). cbn. lia.
+    - eapply Inv_err; eauto.
+    - rewrite P3, P2, P1, s_p_adv. cbn [s_p s0 init_st]. subst n'. lia.
+    - eapply Reach_trans; [exact R1|]. eapply Reach_trans; [exact R2|exact R3]. }
+  destruct (isb 91 b) eqn:A.
+  { destruct (md <=? 0) eqn:LIM; [discriminate|].
+    destruct (container (length data + 1) (value_len md (length data + 1) (0 + 1)) 93 r) as [m|] eqn:C; [|discriminate].
+    assert (EN : n' = S m) by (inversion VL; reflexivity). eapply (NEST CFArr _ 91 93 m); eauto; try (left; reflexivity).
+    - rewrite VS. unfold value_start. change (is ch_lbrack b) with (isb 91 b). rewrite A. reflexivity.
+    - intros l0 n0 E0. eapply value_scans; eauto. left; reflexivity. }
+  destruct (isb 123 b) eqn:O.
+  { destruct (md <=? 0) eqn:LIM; [discriminate|].
+    destruct (container (length data + 1) (member (value_len md (length data + 1) (0 + 1))) 125 r) as [m|] eqn:C; [|discriminate].
+    assert (EN : n' = S m) by (inversion VL; reflexivity). eapply (NEST CFObj _ 123 125 m); eauto; try (right; reflexivity).
+    - rewrite VS. unfold value_start. change (is ch_lbrack b) with (isb 91 b). change (is ch_lbrace b) with (isb 123 b).
+      rewrite A, O. reflexivity.
+    - apply member_scans; [right; reflexivity|]. intros l0 n0 E0. eapply value_scans; eauto. right; reflexivity. }
+  (* scalars *)
+  destruct (tok_first b) as [t|] eqn:TF; [|rewrite (tok_first_none b r TF) in VL; discriminate].
+  assert (R1 : Reach md true q0 data h q0 (adv s0 w) (CFTop, PTok t) (adv (adv s0 w) 1)).
+  { eapply Reach_silent; [exact H1|]. rewrite VS. unfold value_start.
+    change (is ch_lbrack b) with (isb 91 b). change (is ch_lbrace b) with (isb 123 b). rewrite A, O, TF. reflexivity. }
+  pose proof (At_adv1 data _ _ _ H1) as H2.
+  assert (PC : plainctx CFTop) by (split; [reflexivity|intros t0; reflexivity]).
+  pose proof (scalar_rest md true q0 data h CFTop (fun t0 => eq_refl) (NumTail_plain md true q0 data h CFTop PC)
+                b r t _ TF H2 eq_refl) as SRr.
+  rewrite VL in SRr. destruct SRr as (m & -> & LM & R2).
+  apply (FIN (adv (adv (adv s0 w) 1) m) (skipn m r)).
+  - apply At_adv; auto.
+  - reflexivity.
+  - rewrite !s_p_adv. cbn [s_p s0 init_st]. lia.
+  - eapply Reach_trans; [exact R1|exact R2].
+Qed.
+
+Theorem fast_agrees_spec : forall data stack n, skip_ref data = Some n ->
+  exists s, prun 10000 skipfast_spec data no_handler stack [] = ODone n None s.
+Proof. intros data stack n H. apply fast_agrees_md; [lia|exact H]. Qed.
+
+(** the public wrappers: SkipValueFast returns what SkipValue returns whenever that succeeds *)
+Theorem SkipValueFast_agrees : forall data b b' n,
+  fst (SkipValue 10000 skip_spec data b) = inl (n, None) ->
+  fst (SkipValueFast 10000 skipfast_spec data b') = inl (n, None).
+Proof.
+  intros data b b' n H. pose proof (SkipValue_spec_correct data b) as S.
+  destruct (skip_ref data) as [m|] eqn:R.
+  - rewrite S in H. inversion H; subst m.
+    destruct (fast_agrees_spec data (buf_stack b') n R) as (s & E).
+    unfold SkipValueFast, skipValueFast_m. cbn [fst]. rewrite prun_c_eq, E. reflexivity.
+  - destruct S as (p & e & S). rewrite S in H. discriminate.
+Qed.
+
+(** ["]"]  inside an array inside an object: brackets in strings do not count *)
+Definition ex_fast : list byte := [x7b; x22; x61; x22; x3a; x5b; x22; x5d; x22; x2c; x7b; x7d; x5d; x7d; x2c].
+Example fast_agrees_ex :
+  skip_ref ex_fast = Some 14 /\ exists s, prun 10000 skipfast_spec ex_fast no_handler [] [] = ODone 14 None s.
+Proof. split; [vm_compute; reflexivity|eexists; vm_compute; reflexivity]. Qed.
+Print Assumptions fast_agrees_spec.
+Print Assumptions SkipValueFast_agrees.
+
+(** * The handler machines with well-behaved handlers (C07) *)
+
+(** ** pure facts about the reference functions *)
+
+(** the last byte of a string body is the closing quote *)
+Lemma string_body_last : forall l k, string_body l = Some k ->
+  exists k' q rest, k = S k' /\ skipn k' l = q :: rest /\ isb 34 q = true.
+Proof.
+  assert (B : forall n l, (length l <= n)%nat -> forall k, string_body l = Some k ->
+              exists k' q rest, k = S k' /\ skipn k' l = q :: rest /\ isb 34 q = true).
+  { induction n as [|n IH]; intros l L k E.
+    - destruct l; [discriminate|cbn in L; lia].
+    - destruct l as [|b r]; [discriminate|]. cbn [string_body] in E. cbn [length] in *.
+      destruct (isb 34 b) eqn:Q; [inversion E; exists 0%nat, b, r; auto|].
+      destruct (isb 92 b).
+      + destruct r as [|e r1]; [discriminate|].
+        destruct (simple_escape e).
+        * destruct (string_body r1) as [k1|] eqn:E1; [|discriminate]. inversion E.
+          destruct (IH r1 ltac:(cbn [length] in *; lia) _ E1) as (k' & q & rest & -> & K & QQ).
+          exists (2 + k')%nat, q, rest. auto.
+        * destruct (isb 117 e); [|discriminate].
+          destruct r1 as [|h1 [|h2 [|h3 [|h4 r2]]]]; try discriminate.
+          destruct (r_is_hex h1 && r_is_hex h2 && r_is_hex h3 && r_is_hex h4); [|discriminate].
+          destruct (string_body r2) as [k1|] eqn:E1; [|discriminate]. inversion E.
+          destruct (IH r2 ltac:(cbn [length] in *; lia) _ E1) as (k' & q & rest & -> & K & QQ).
+          exists (6 + k')%nat, q, rest. auto.
+      + destruct (r_is_ctl b); [discriminate|].
+        destruct (string_body r) as [k1|] eqn:E1; [|discriminate]. inversion E.
+        destruct (IH r ltac:(lia) _ E1) as (k' & q & rest & -> & K & QQ).
+        exists (1 + k')%nat, q, rest. auto. }
+  intros l k E. exact (B (length l) l (le_n _) k E).
+Qed.
+
+(** the last byte of a container is its closing bracket *)
+Lemma items_last : forall item close k l n, items k item close l = Some n ->
+  exists m cb rest, n = S m /\ skipn m l = cb :: rest /\ isb close cb = true.
+Proof.
+  intros item close. induction k as [|k IH]; intros l n E; [discriminate|].
+  cbn [items] in E. destruct (item l) as [n1|]; [|discriminate].
+  set (l1 := skipn n1 l) in *. set (w := ws l1) in *.
+  destruct (skipn w l1) as [|c0 r1] eqn:K; [discriminate|].
+  assert (K' : skipn (n1 + w) l = c0 :: r1) by (rewrite Nat.add_comm, <- skipn_skipn; exact K).
+  destruct (isb 44 c0).
+  - set (w1 := ws r1) in *. destruct (items k item close (skipn w1 r1)) as [n2|] eqn:I2; [|discriminate].
+    inversion E. destruct (IH _ _ I2) as (m2 & cb & rest & -> & K4 & CB).
+    exists (n1 + w + 1 + w1 + m2)%nat, cb, rest. split; [lia|]. split; [|exact CB].
+    replace (n1 + w + 1 + w1 + m2)%nat with (m2 + (w1 + (1 + (n1 + w))))%nat by lia.
+    rewrite <- (skipn_skipn m2), <- (skipn_skipn w1), <- (skipn_skipn 1 (n1 + w)), K'. exact K4.
+  - destruct (isb close c0) eqn:CL; [|discriminate]. inversion E. exists (n1 + w)%nat, c0, r1. split; [lia|]. auto.
+Qed.
+
+Lemma container_last : forall f item close r n, container f item close r = Some n ->
+  exists m cb rest, n = S m /\ skipn m r = cb :: rest /\ isb close cb = true.
+Proof.
+  intros f item close r n E. unfold container in E. set (w := ws r) in *.
+  destruct (skipn w r) as [|c0 r1] eqn:K; [discriminate|].
+  destruct (isb close c0) eqn:CL.
+  - inversion E. exists w, c0, r1. split; [lia|]. auto.
+  - destruct (items f item close (c0 :: r1)) as [n2|] eqn:I2; [|discriminate]. inversion E.
+    destruct (items_last _ _ _ _ _ I2) as (m2 & cb & rest & -> & K2 & CB).
+    exists (w + m2)%nat, cb, rest. split; [lia|]. split; [|exact CB].
+    rewrite Nat.add_comm, <- skipn_skipn, K. exact K2.
+Qed.
+
+(** a value found under some depth limit is found, with the same length, under any limit that
+    cannot be reached, and with any sufficient fuel *)
+Lemma items_ext : forall (item item' : list byte -> option nat) close k l n, items k item close l = Some n ->
+  (forall l' n', (length l' <= length l)%nat -> item l' = Some n' -> item' l' = Some n') ->
+  forall k', (length l < k')%nat -> items k' item' close l = Some n.
+Proof.
+  intros item item' close. induction k as [|k IH]; intros l n E X k' LK; [discriminate|].
+  destruct k' as [|k']; [lia|]. cbn [items] in *.
+  destruct (item l) as [n1|] eqn:I1; [|discriminate]. rewrite (X l n1 (le_n _) I1).
+  set (l1 := skipn n1 l) in *. set (w := ws l1) in *.
+  assert (LL : (length (skipn w l1) <= length l)%nat) by (unfold l1; rewrite !skipn_length; lia).
+  destruct (skipn w l1) as [|c0 r1] eqn:K; [discriminate|]. cbn [length] in LL.
+  destruct (isb 44 c0); [|exact E].
+  set (w1 := ws r1) in *.
+  assert (L2 : (length (skipn w1 r1) <= length r1)%nat) by (rewrite skipn_length; lia).
+  destruct (items k item close (skipn w1 r1)) as [n2|] eqn:I2; [|discriminate].
+  rewrite (IH _ _ I2 ltac:(intros l' n' L' E'; apply X; [lia|exact E']) k' ltac:(lia)). exact E.
+Qed.
+
+Lemma container_ext : forall (item item' : list byte -> option nat) close k r n, container k item close r = Some n ->
+  (forall l' n', (length l' <= length r)%nat -> item l' = Some n' -> item' l' = Some n') ->
+  forall k', (length r < k')%nat -> container k' item' close r = Some n.
+Proof.
+  intros item item' close k r n E X k' LK. unfold container in *. set (w := ws r) in *.
+  assert (LL : (length (skipn w r) <= length r)%nat) by (rewrite skipn_length; lia).
+  destruct (skipn w r) as [|c0 r1] eqn:K; [discriminate|].
+  destruct (isb close c0); [exact E|].
+  destruct (items k item close (c0 :: r1)) as [n2|] eqn:I2; [|discriminate].
+  rewrite (items_ext item item' close k _ _ I2 ltac:(intros l' n' L' E'; apply X; [lia|exact E']) k' ltac:(lia)). exact E.
+Qed.
+
+Lemma member_ext : forall (val val' : list byte -> option nat) l n, member val l = Some n ->
+  (forall l' n', (length l' <= length l)%nat -> val l' = Some n' -> val' l' = Some n') ->
+  member val' l = Some n.
+Proof.
+  intros val val' l n E X. unfold member in *. destruct (string_tok l) as [k|]; [|discriminate].
+  set (l1 := skipn k l) in *. set (w := ws l1) in *.
+  assert (LL : (length (skipn w l1) <= length l)%nat) by (unfold l1; rewrite !skipn_length; lia).
+  destruct (skipn w l1) as [|c0 r1] eqn:K; [discriminate|]. cbn [length] in LL.
+  destruct (isb 58 c0); [|discriminate].
+  set (w1 := ws r1) in *.
+  destruct (val (skipn w1 r1)) as [n2|] eqn:V; [|discriminate].
+  rewrite (X (skipn w1 r1) n2 ltac:(rewrite skipn_length; lia) V). exact E.
+Qed.
+
+Lemma value_len_unb : forall k md d l n, value_len md k d l = Some n ->
+  forall k' md' d', (length l < k')%nat -> d' + len l <= md' -> value_len md' k' d' l = Some n.
+Proof.
+  induction k as [|k IH]; intros md d l n E k' md' d' LK LM; [discriminate|].
+  destruct k' as [|k']; [lia|]. cbn [value_len] in *. destruct l as [|b r]; [discriminate|].
+  rewrite len_cons in LM. pose proof (len_nonneg r) as RN. cbn [length] in LK.
+  assert (NL : (md' <=? d') = false) by (apply Z.leb_gt; lia).
+  assert (SUB : forall l' n', (length l' <= length r)%nat -> value_len md k (d + 1) l' = Some n' ->
+                value_len md' k' (d' + 1) l' = Some n').
+  { intros l' n' L' E'. eapply IH; [exact E'|lia|unfold len in *; lia]. }
+  destruct (isb 91 b).
+  - destruct (md <=? d); [discriminate|]. rewrite NL.
+    destruct (container k (value_len md k (d + 1)) 93 r) as [m|] eqn:C; [|discriminate].
+    rewrite (container_ext _ _ 93 k r m C SUB k' ltac:(lia)). exact E.
+  - destruct (isb 123 b); [|exact E].
+    destruct (md <=? d); [discriminate|]. rewrite NL.
+    destruct (container k (member (value_len md k (d + 1))) 125 r) as [m|] eqn:C; [|discriminate].
+    rewrite (container_ext (member (value_len md k (d + 1))) (member (value_len md' k' (d' + 1))) 125 k r m C
+               ltac:(intros l' n' L' E'; eapply member_ext; [exact E'|]; intros l2 n2 L2 E2; apply SUB; [lia|exact E2])
+               k' ltac:(lia)). exact E.
+Qed.
+
+(** ** without depth-checked calls the depth limit does not matter *)
+Definition unchecked (u : unit_) : bool := match u with UCall true _ _ _ => false | _ => true end.
+Definition uc (us : list unit_) : bool := forallb unchecked us.
+
+Lemma exec_unit_md : forall md md' data h pe u s, unchecked u = true ->
+  exec_unit md data h pe u s = exec_unit md' data h pe u s.
+Proof. intros md md' data h pe u s U. destruct u; try reflexivity. destruct depth_check; [discriminate|reflexivity]. Qed.
+
+Lemma exec_units_md : forall md md' data h pe us s, uc us = true ->
+  exec_units md data h pe us s = exec_units md' data h pe us s.
+Proof.
+  intros md md' data h pe. induction us as [|u r IH]; intros s U; [reflexivity|].
+  cbn in U. apply andb_true_iff in U. destruct U as [U1 U2]. cbn [exec_units].
+  rewrite (exec_unit_md md md' data h pe u s U1). destruct (exec_unit md' data h pe u s); auto.
+Qed.
+
+Lemma uc_handler_units : forall c f, uc (handler_units c f) = true.
+Proof. intros c f. destruct c, f; reflexivity. Qed.
+Lemma uc_err_units : forall c, uc (err_units c) = true.
+Proof. destruct c; reflexivity. Qed.
+Lemma uc_eof_units : forall c, uc (eof_units c) = true.
+Proof. destruct c; reflexivity. Qed.
+Lemma uc_app : forall a b, uc a = true -> uc b = true -> uc (a ++ b) = true.
+Proof. intros a b A B. unfold uc. rewrite forallb_app. unfold uc in A, B. rewrite A, B. reflexivity. Qed.
+
+Lemma uc_value_start : forall c b, uc (fst (value_start false c b)) = true.
+Proof.
+  intros c b. unfold value_start.
+  destruct (is ch_lbrack b); [cbn [fst]; apply uc_app; [apply uc_handler_units|reflexivity]|].
+  destruct (is ch_lbrace b); [cbn [fst]; apply uc_app; [apply uc_handler_units|reflexivity]|].
+  destruct (tok_first b); cbn [fst fail]; [apply uc_handler_units|apply uc_err_units].
+Qed.
+
+Lemma uc_struct_step : forall c p b, uc (fst (struct_step false c p b)) = true.
+Proof.
+  intros c p b.
+  destruct p; destruct c; cbn -[value_start];
+    repeat match goal with |- context [if ?x then _ else _] => destruct x end;
+    try reflexivity; apply uc_value_start.
+Qed.
+
+Lemma uc_strans : forall q b, uc (fst (strans false q b)) = true.
+Proof.
+  intros [c p] b. unfold strans.
+  destruct p; try apply uc_struct_step.
+  - destruct (scans c && in_intpart t && is ch_dot b); [reflexivity|].
+    destruct (scans c && in_intpart t && is_exp b); [reflexivity|].
+    destruct (tok_step t b); cbn [fst fail]; try reflexivity; try apply uc_err_units; try apply uc_struct_step.
+    destruct c, t; reflexivity.
+  - destruct (tok_step t b); cbn [fst fail]; try reflexivity; apply uc_err_units.
+Qed.
+
+Lemma uc_seof : forall q, uc (seof q) = true.
+Proof.
+  intros [c p]. destruct p; cbn; try apply uc_eof_units; try reflexivity.
+  destruct (tok_complete t); [destruct (after c); try reflexivity; apply uc_eof_units|apply uc_eof_units].
+Qed.
+
+Lemma run_md_irrelevant : forall md md' start data h f z s,
+  run md (spec_machine false start) data h (len data) f z s =
+  run md' (spec_machine false start) data h (len data) f z s.
+Proof.
+  intros md md' start data h.
+  assert (TR : forall z b, uc (fst (m_trans (spec_machine false start) z b)) = true).
+  { intros z b. cbn. destruct (dec z) as [q|]; [|reflexivity].
+    pose proof (uc_strans q b) as U. destruct (strans false q b). exact U. }
+  assert (EO : forall z s, eof_phase md (spec_machine false start) data h (len data) z s =
+                           eof_phase md' (spec_machine false start) data h (len data) z s).
+  { intros z s. unfold eof_phase. rewrite (exec_units_md md md'); [reflexivity|].
+    cbn. destruct (dec z) as [q|]; [apply uc_seof|reflexivity]. }
+  induction f as [|f IH]; intros z s; [reflexivity|].
+  cbn [run]. destruct (get data (s_p s)) as [b|]; [|reflexivity].
+  specialize (TR z b). destruct (m_trans (spec_machine false start) z b) as [us d]. cbn [fst] in TR.
+  rewrite (exec_units_md md md' data h (len data) us s TR).
+  destruct (exec_units md' data h (len data) us s); try reflexivity.
+  - destruct (d =? 0); [reflexivity|]. destruct (negb _); [reflexivity|]. destruct (_ =? len data); [apply EO|apply IH].
+  - destruct (d0 =? 0); [reflexivity|]. destruct (negb _); [reflexivity|]. destruct (_ =? len data); [apply EO|apply IH].
+Qed.
+
+Theorem prun_md_irrelevant : forall md md' start data h stack dst,
+  prun md (spec_machine false start) data h stack dst = prun md' (spec_machine false start) data h stack dst.
+Proof.
+  intros. unfold prun. destruct (0 =? len data).
+  - unfold eof_phase. rewrite (exec_units_md md md'); [reflexivity|].
+    cbn. destruct (dec (enc start)) as [q|]; [apply uc_seof|reflexivity].
+  - apply run_md_irrelevant.
+Qed.
+
+(** ** the handler call at the first byte of a member value *)
+Definition well_behaved (data : list byte) (h : handler) : Prop :=
+  forall c calls,
+    h_err (h (c :: calls)) = None /\ h_havoc (h (c :: calls)) = [] /\
+    (h_pp (h (c :: calls)) = 0 \/
+     skip_ref (skipn (Z.to_nat (c_p c)) data) = Some (h_pp (h (c :: calls)))).
+
+Definition ErrSome (o : outcome) : Prop := exists p e s', o = ODone p (Some e) s'.
+
+Lemma exec_units_app : forall md data h pe a b s,
+  exec_units md data h pe (a ++ b) s =
+  match exec_units md data h pe a s with RCont s' => exec_units md data h pe b s' | x => x end.
+Proof.
+  intros md data h pe. induction a as [|u a IH]; intros b s; [reflexivity|].
+  cbn [app exec_units]. destruct (exec_unit md data h pe u s); auto.
+Qed.
+
+Section Handler.
+  Variable data : list byte.
+  Variable h : handler.
+  Variable start : sstate.
+  Hypothesis LEN : len data <= maxint.
+  Hypothesis WB : well_behaved data h.
+
+  Let md := len data.
+  Let F := (length data + 2)%nat.
+
+  Notation ReachS := (Reach md false start data h).
+  Notation EndsS := (Ends md false start data h).
+  Notation AtS := (At data).
+  Notation InvS := (Inv md false).
+  Notation refval := (value_len md F 0).
+
+  Lemma Ends_Any_Some : forall q s, EndsS q s (ErrAny s) -> EndsS q s ErrSome.
+  Proof. intros q s E. eapply Ends_weaken; [|exact E]. intros o (p & e & s' & -> & _). exists p, e, s'. reflexivity. Qed.
+  Lemma Reach_Ends_some : forall q s q' s', ReachS q s q' s' -> EndsS q' s' ErrSome -> EndsS q s ErrSome.
+  Proof. intros. eapply Reach_Ends; eauto. Qed.
+
+  (** the unchecked call: pushes the return state *)
+  Lemma call_exec : forall s sg x ret tgt, InvS s sg ->
+    exists s', exec_unit md data h md (UCall false x ret tgt) s = RGoto s' tgt /\
+               s_p s' = s_p s /\ InvS s' (ret :: sg) /\ frame s' = frame s.
+  Proof.
+    intros s sg x ret tgt (L & TP & CP & E & MD). cbn [exec_unit andb].
+    pose proof (len_nonneg (s_junk s)) as JN.
+    assert (MD' : false = true -> len (ret :: sg) <= md) by discriminate.
+    destruct (s_top s + 1 >=? s_cap s) eqn:G.
+    - assert (G' : s_top s + 1 >= s_cap s) by (apply Z.geb_le in G; lia).
+      assert (N0 : (1 + s_top s - s_cap s <? 0) = false) by (apply Z.ltb_ge; lia). rewrite N0.
+      assert (J1 : exists y, s_junk s ++ zrepeat (Z.to_nat (1 + s_top s - s_cap s)) = [y]).
+      { destruct (s_junk s) as [|y [|y2 j]] eqn:J.
+        - change (len (@nil Z)) with 0 in CP. replace (1 + s_top s - s_cap s) with 1 by lia. exists 0. reflexivity.
+        - change (len [y]) with 1 in CP. replace (1 + s_top s - s_cap s) with 0 by lia. exists y. reflexivity.
+        - rewrite !len_cons in CP. pose proof (len_nonneg j). lia. }
+      destruct J1 as [y J1]. rewrite J1. eexists. split; [reflexivity|]. split; [reflexivity|]. split; [|reflexivity].
+      unfold Inv. cbn [s_live s_top s_cap s_junk s_err set_stk]. rewrite !len_cons. rewrite L.
+      change (len (@nil Z)) with 0. repeat split; try lia; try exact E; try (intro; discriminate).
+    - assert (G' : s_top s + 1 < s_cap s) by (rewrite Z.geb_leb in G; apply Z.leb_gt in G; lia).
+      destruct (s_junk s) as [|y j] eqn:J; [change (len (@nil Z)) with 0 in CP; lia|].
+      eexists. split; [reflexivity|]. split; [reflexivity|]. split; [|reflexivity].
+      unfold Inv. cbn [s_live s_top s_cap s_junk s_err set_stk]. rewrite !len_cons in *. rewrite L.
+      repeat split; try lia; try exact E; try (intro; discriminate).
+  Qed.
+
+  (** the state after a handler call that answered [pp] *)
+  Definition called (s : st) (c : call) : st := set_err (set_calls s (c :: s_calls s)) None.
+
+  Lemma slice_key : forall (s : st) (o : bool) (kb : list byte), (if o then slice data (s_fs s + 1) (s_fe s - 1) = Some kb else kb = []) ->
+    (if o then slice data (s_fs s + 1) (s_fe s - 1) else Some []) = Some kb.
+  Proof. intros s o kb K. destruct o; [exact K|subst; reflexivity]. Qed.
+
+  Lemma exec_simple : forall (s : st) l (o : bool) (kb : list byte), AtS s l -> s_err s = None ->
+    (if o then slice data (s_fs s + 1) (s_fe s - 1) = Some kb else kb = []) ->
+    exec_units md data h md [UHandle o false; UHandlerErrRet false] s =
+    RCont (called s {| c_p := s_p s; c_key := kb; c_obj := o |}).
+  Proof.
+    intros s l o kb [[P0 P1] _] E K. cbn [exec_units exec_unit]. rewrite (slice_key s o kb K).
+    assert (R : (0 <=? s_p s) && (s_p s <=? md) = true) by (apply andb_true_iff; split; apply Z.leb_le; lia).
+    rewrite R. destruct (WB {| c_p := s_p s; c_key := kb; c_obj := o |} (s_calls s)) as (HE & HV & _).
+    rewrite HE, HV. cbn. reflexivity.
+  Qed.
+
+  Lemma exec_full : forall (s : st) l (o : bool) (kb : list byte), AtS s l -> s_err s = None ->
+    (if o then slice data (s_fs s + 1) (s_fe s - 1) = Some kb else kb = []) ->
+    let c := {| c_p := s_p s; c_key := kb; c_obj := o |} in
+    let pp := h_pp (h (c :: s_calls s)) in
+    (pp = 0 -> exec_units md data h md [UHandle o true; UHandlerErrRet true; UPPNeg 0; UPPJump true 0] s
+               = RCont (set_pp (called s c) 0)) /\
+    (0 < pp <= md - s_p s -> exec_units md data h md [UHandle o true; UHandlerErrRet true; UPPNeg 0; UPPJump true 0] s
+               = RCont (set_p (set_pp (called s c) pp) (s_p s + pp - 2))).
+  Proof.
+    intros s l o kb [[P0 P1] _] E K c pp. fold md in P1.
+    assert (R : (0 <=? s_p s) && (s_p s <=? md) = true) by (apply andb_true_iff; split; apply Z.leb_le; lia).
+    destruct (WB c (s_calls s)) as (HE & HV & _). fold pp in HE, HV.
+    assert (MX : md <= maxint) by exact LEN. unfold maxint in MX.
+    split; intros PP; cbn [exec_units exec_unit]; rewrite (slice_key s o kb K), R; fold c; rewrite HE, HV;
+      cbn [option_map set_err set_calls set_pp s_err s_pp s_p].
+    - fold pp. rewrite PP. cbn. reflexivity.
+    - fold pp. rewrite (wrap64_id pp) by (unfold two63 in *; lia).
+      assert (N : (pp <? 0) = false) by (apply Z.ltb_ge; lia). rewrite N.
+      cbn [s_pp s_p set_pp set_err set_calls].
+      assert (Z0 : (pp =? 0) = false) by (apply Z.eqb_neq; lia). rewrite Z0.
+      rewrite (wrap64_id (pp - 1)) by (unfold two63 in *; lia).
+      rewrite (wrap64_id (md - s_p s)) by (unfold two63 in *; lia).
+      assert (OOB : (pp - 1 >=? md - s_p s) = false) by (rewrite Z.geb_leb; apply Z.leb_gt; lia). rewrite OOB.
+      rewrite (wrap64_id (s_p s + pp)) by (unfold two63 in *; lia).
+      rewrite (wrap64_id (s_p s + pp - 1)) by (unfold two63 in *; lia).
+      rewrite (wrap64_id (s_p s + pp - 1 - 1)) by (unfold two63 in *; lia).
+      cbn. f_equal. f_equal. lia.
+  Qed.
+
+  Definition hctx (hc : ctx) : Prop := hc = CHArr \/ hc = CHObj.
+  Lemma hctx_plain : forall hc, hctx hc -> plainctx hc.
+  Proof. intros hc [->| ->]; split; try reflexivity; intros t; reflexivity. Qed.
+
+  Lemma value_len_le : forall md0 k d l n, value_len md0 k d l = Some n -> (n <= length l)%nat.
+  Proof.
+    intros md0 k d l n E.
+    exact (proj1 (value_scans md0 start data h CFArr (or_introl eq_refl) k d l n E)).
+  Qed.
+
+  (** what a well-behaved handler answers: 0, or the length of the value according to the reference *)
+  Lemma pp_cases : forall s b r (c : call), AtS s (b :: r) -> is_ws b = false -> c_p c = s_p s ->
+    h_pp (h (c :: s_calls s)) = 0 \/
+    exists n0, refval (b :: r) = Some n0 /\ h_pp (h (c :: s_calls s)) = Z.of_nat n0.
+  Proof.
+    intros s b r c H W CP. destruct (WB c (s_calls s)) as (_ & _ & [Z0|SR]); [left; exact Z0|right].
+    pose proof (AtP_len data _ _ H) as LL. destruct H as [[P0 P1] SK]. rewrite CP, SK in SR.
+    unfold skip_ref, skip_ref_md in SR. rewrite (ws_cons_false b r W) in SR. cbn [skipn] in SR.
+    destruct (value_len max_depth_ref (length (b :: r) + 2) 0 (b :: r)) as [n0|] eqn:V; [|discriminate].
+    cbn in SR. inversion SR. exists n0. split; [|reflexivity].
+    eapply value_len_unb; [exact V| |].
+    - unfold F. unfold len in LL. lia.
+    - unfold md. lia.
+  Qed.
+
+  Lemma closer_not_ws : forall cl cb, (cl = 93 \/ cl = 125) -> isb cl cb = true -> is_ws cb = false.
+  Proof. intros cl cb C H. apply Z.eqb_eq in H. unfold is_ws. rewrite H. destruct C as [->| ->]; reflexivity. Qed.
+
+  Lemma Inv_called : forall s c sg, InvS s sg -> InvS (called s c) sg.
+  Proof. intros s c sg (L & TP & CP & E & MD). unfold Inv. cbn. auto. Qed.
+
+  (** a member value: the handler is called once, at its first byte; afterwards the run stands
+      after the value *)
+  Lemma hvalue : forall hc q s b r kb, hctx hc -> AtS s (b :: r) -> is_ws b = false ->
+    strans false q b = value_start false hc b -> InvS s [] ->
+    (if is_objctx hc then slice data (s_fs s + 1) (s_fe s - 1) = Some kb else kb = []) ->
+    match refval (b :: r) with
+    | Some n => (n <= length (b :: r))%nat /\
+                exists s', ReachS q s (hc, PAfter) s' /\ s_p s' = s_p s + Z.of_nat n /\ InvS s' [] /\
+                           s_calls s' = {| c_p := s_p s; c_key := kb; c_obj := is_objctx hc |} :: s_calls s
+    | None => EndsS q s ErrSome
+    end.
+  Proof.
+    intros hc q s b r kb HC H W VS I K.
+    set (o := is_objctx hc) in *. set (c := {| c_p := s_p s; c_key := kb; c_obj := o |}).
+    pose proof (Inv_err _ _ _ _ I) as E.
+    pose proof (exec_simple s _ o kb H E K) as XS. fold c in XS.
+    destruct (exec_full s _ o kb H E K) as [XF0 XFn]. fold c in XF0, XFn.
+    pose proof (pp_cases s b r c H W eq_refl) as PPC.
+    set (pp := h_pp (h (c :: s_calls s))) in *.
+    pose proof (AtP_len data _ _ H) as LL. fold md in LL.
+    assert (LB : (S (length r) <= length data)%nat /\ 0 <= s_p s /\ Z.of_nat (S (length r)) = md - s_p s).
+    { pose proof H as [[P0 P1] _]. rewrite len_cons in LL. unfold md, len in *. lia. }
+    destruct LB as (LB & P0 & LZ).
+    assert (AF : after hc = PAfter) by (destruct HC as [->| ->]; reflexivity).
+    assert (HU1 : handler_units hc true = [UHandle o true; UHandlerErrRet true; UPPNeg 0; UPPJump true 0])
+      by (destruct HC as [->| ->]; reflexivity).
+    assert (HU0 : handler_units hc false = [UHandle o false; UHandlerErrRet false])
+      by (destruct HC as [->| ->]; reflexivity).
+    pose proof (At_adv1 data _ _ _ H) as H1.
+    assert (MDP : (md <=? 0) = false).
+    { apply Z.leb_gt. unfold md, len in *. lia. }
+    (* nested containers *)
+    assert (NEST : forall sub item close, body sub -> close = closer sub ->
+               strans false q b = (handler_units hc true ++ [UCall false 0 (enc (hc, PAfter)) (enc (sub, PStart))], Some (hc, PAfter)) ->
+               ItemOK md false start data h sub item [enc (hc, PAfter)] (length data + 1) ->
+               refval (b :: r) = option_map S (container (length data + 1) item close r) ->
+               match refval (b :: r) with
+               | Some n => (n <= length (b :: r))%nat /\
+                           exists s', ReachS q s (hc, PAfter) s' /\ s_p s' = s_p s + Z.of_nat n /\ InvS s' [] /\
+                                      s_calls s' = c :: s_calls s
+               | None => EndsS q s ErrSome
+               end).
+    { intros sub item close BS CL T IO RV. rewrite HU1 in T.
+      assert (CLV : close = 93 \/ close = 125) by (destruct BS as [->| ->]; subst close; [left|right]; reflexivity).
+      assert (LR : (length r < length data + 1)%nat).
+      { lia. }
+      assert (LIMR : Lim md false [enc (hc, PAfter)] r).
+      { intros _. rewrite len_cons. change (len (@nil Z)) with 0. unfold md, len in *. lia. }
+      destruct PPC as [PP0|(n0 & RV0 & PPn)].
+      - (* the handler answered 0: the machine walks through the container *)
+        destruct (call_exec (set_pp (called s c) 0) [] 0 (enc (hc, PAfter)) (enc (sub, PStart))
+                    ltac:(apply Inv_called; exact I)) as (s4 & X4 & P4 & I4 & F4).
+        assert (R1 : ReachS q s (sub, PStart) (adv s4 1)).
+        { eapply Reach_goto; [exact H|exact T| |rewrite P4; cbn; lia].
+          fold md. rewrite exec_units_app, (XF0 PP0). cbn [exec_units]. rewrite X4. reflexivity. }
+        assert (H4 : AtS (adv s4 1) r) by (apply (At_move data s _ (b :: r) 1 H); [rewrite s_p_adv, P4; reflexivity|cbn; lia]).
+        pose proof (container_ok md false start data h sub item [] (hc, PAfter) (length data + 1) BS IO r (adv s4 1) LR H4
+                      ltac:(apply Inv_adv; exact I4) LIMR) as G.
+        rewrite <- CL in G. rewrite RV.
+        destruct (container (length data + 1) item close r) as [m|]; cbn [option_map].
+        + destruct G as (N & s' & R' & P' & I' & F'). split; [cbn [length]; lia|].
+          exists s'. split; [eapply Reach_trans; eauto|]. split; [rewrite P', s_p_adv, P4; cbn; lia|]. split; [exact I'|].
+          unfold frame in F', F4. inversion F' as [[A1 A2 A3]]. inversion F4 as [[B1 B2 B3]]. rewrite A1. cbn in B1 |- *. rewrite B1. reflexivity.
+        + eapply Reach_Ends_some; [exact R1|]. apply Ends_Any_Some. exact G.
+      - (* the handler answered the exact length: the machine jumps to the closing bracket *)
+        rewrite RV0. rewrite RV0 in RV.
+        destruct (container (length data + 1) item close r) as [m|] eqn:C; [|discriminate]. cbn in RV. inversion RV; subst n0.
+        destruct (container_last _ _ _ _ _ C) as (m' & cb & rest & -> & K2 & CB).
+        pose proof (value_len_le _ _ _ _ _ RV0) as NL. cbn [length] in NL.
+        assert (PPR : 0 < pp <= md - s_p s) by (rewrite PPn; lia).
+        destruct (call_exec (set_p (set_pp (called s c) pp) (s_p s + pp - 2)) [] 0 (enc (hc, PAfter)) (enc (sub, PStart))
+                    ltac:(apply Inv_called; exact I)) as (s4 & X4 & P4 & I4 & F4).
+        cbn [s_p set_p] in P4.
+        assert (R1 : ReachS q s (sub, PStart) (adv s4 1)).
+        { eapply Reach_goto; [exact H|exact T| |rewrite P4; lia].
+          fold md. rewrite exec_units_app, (XFn PPR). cbn [exec_units]. rewrite X4. reflexivity. }
+        assert (H4 : AtS (adv s4 1) (cb :: rest)).
+        { rewrite <- K2. change (skipn m' r) with (skipn (1 + m') (b :: r)).
+          apply (At_move data s _ (b :: r) (1 + m') H); [rewrite s_p_adv, P4; lia|cbn [length]; lia]. }
+        pose proof (start_close false sub cb BS (closer_not_ws close cb CLV CB) ltac:(rewrite <- CL; exact CB)) as T2.
+        destruct (ret_step md false start data h _ _ (hc, PAfter) (adv s4 1) [] cb rest H4 T2 ltac:(apply Inv_adv; exact I4))
+          as (s5 & R5 & P5 & I5 & F5).
+        split; [cbn [length]; lia|]. exists s5. split; [eapply Reach_trans; eauto|].
+        split; [rewrite P5, s_p_adv, P4; lia|]. split; [exact I5|].
+        unfold frame in F5, F4. inversion F5 as [[A1 A2 A3]]. inversion F4 as [[B1 B2 B3]]. rewrite A1. cbn in B1 |- *. rewrite B1. reflexivity. }
+    unfold F. replace (length data + 2)%nat with (S (length data + 1)) by lia. cbn [value_len].
+    destruct (isb 91 b) eqn:A.
+    { rewrite MDP.
+      assert (G := NEST CArr (value_len md (length data + 1) (0 + 1)) 93 ltac:(left; reflexivity) eq_refl).
+      unfold F in G. replace (length data + 2)%nat with (S (length data + 1)) in G by lia. cbn [value_len] in G.
+      rewrite A, MDP in G. apply G; [| |reflexivity].
+      - rewrite VS. unfold value_start. change (is ch_lbrack b) with (isb 91 b). rewrite A. destruct HC as [->| ->]; reflexivity.
+      - apply (array_items md false start data h (length data + 1) [] (hc, PAfter)). apply value_ok. }
+    destruct (isb 123 b) eqn:O.
+    { rewrite MDP.
+      assert (G := NEST CObj (member (value_len md (length data + 1) (0 + 1))) 125 ltac:(right; reflexivity) eq_refl).
+      unfold F in G. replace (length data + 2)%nat with (S (length data + 1)) in G by lia. cbn [value_len] in G.
+      rewrite A, O, MDP in G. apply G; [| |reflexivity].
+      - rewrite VS. unfold value_start. change (is ch_lbrack b) with (isb 91 b). change (is ch_lbrace b) with (isb 123 b).
+        rewrite A, O. destruct HC as [->| ->]; reflexivity.
+      - apply (object_items md false start data h (length data + 1) [] (hc, PAfter)). apply value_ok. }
+    (* scalars *)
+    assert (RVS : refval (b :: r) = scalar_tok (b :: r)).
+    { unfold F. replace (length data + 2)%nat with (S (length data + 1)) by lia. cbn [value_len]. rewrite A, O. reflexivity. }
+    destruct (tok_first b) as [t|] eqn:TF.
+    2:{ rewrite (tok_first_none b r TF). eapply Ends_weaken; [|eapply (fail_step md false start data h hc); [exact H|]].
+        - intros o0 (p0 & e0 & s0 & -> & _). exists p0, e0, s0. reflexivity.
+        - rewrite VS. unfold value_start. change (is ch_lbrack b) with (isb 91 b). change (is ch_lbrace b) with (isb 123 b).
+          rewrite A, O, TF. reflexivity. }
+    assert (T : strans false q b = (handler_units hc (is ch_quote b), Some (hc, PTok t))).
+    { rewrite VS. unfold value_start. change (is ch_lbrack b) with (isb 91 b). change (is ch_lbrace b) with (isb 123 b).
+      rewrite A, O, TF. reflexivity. }
+    pose proof (hctx_plain hc HC) as PL.
+    assert (SRS : forall s1, AtS s1 r -> s_err s1 = None ->
+               match scalar_tok (b :: r) with
+               | Some n => exists m, n = S m /\ (m <= length r)%nat /\ ReachS (hc, PTok t) s1 (hc, PAfter) (adv s1 m)
+               | None => EndsS (hc, PTok t) s1 (ErrAny s1)
+               end).
+    { intros s1 HH EE. rewrite <- AF.
+      apply (scalar_rest md false start data h hc (proj2 PL) (NumTail_plain md false start data h hc PL) b r t s1 TF HH EE). }
+    change (is ch_quote b) with (isb 34 b) in T.
+    destruct (isb 34 b) eqn:Q.
+    - (* string: the handler may have consumed it *)
+      rewrite HU1 in T.
+      destruct PPC as [PP0|(n0 & RV0 & PPn)].
+      + assert (R1 : ReachS q s (hc, PTok t) (adv (set_pp (called s c) 0) 1))
+          by (eapply Reach_units; [exact H|exact T|exact (XF0 PP0)|cbn; lia]).
+        specialize (SRS (adv (set_pp (called s c) 0) 1) H1 eq_refl).
+        destruct (scalar_tok (b :: r)) as [n|].
+        * destruct SRS as (m & -> & LM & R2). split; [cbn [length]; lia|].
+          eexists. split; [eapply Reach_trans; [exact R1|exact R2]|]. split; [cbn; lia|]. split; [|reflexivity].
+          apply Inv_adv. apply Inv_adv. apply Inv_called. exact I.
+        * eapply Reach_Ends_some; [exact R1|]. apply Ends_Any_Some. exact SRS.
+      + rewrite RVS in RV0. rewrite RV0.
+        pose proof RV0 as ST. unfold scalar_tok in ST. rewrite Q in ST. unfold string_tok in ST. rewrite Q in ST.
+        destruct (string_body r) as [k|] eqn:SB; [|discriminate]. cbn in ST. inversion ST; subst n0.
+        destruct (string_body_last r k SB) as (k' & qq & rest & -> & K2 & QQ).
+        pose proof (string_body_le r _ SB) as KL.
+        assert (PPR : 0 < pp <= md - s_p s) by (rewrite PPn; lia).
+        assert (TT : t = TStr).
+        { unfold tok_first in TF. change (is ch_quote b) with (isb 34 b) in TF. rewrite Q in TF. inversion TF; reflexivity. }
+        subst t.
+        set (sj := set_p (set_pp (called s c) pp) (s_p s + pp - 2)).
+        assert (R1 : ReachS q s (hc, PTok TStr) (adv sj 1))
+          by (eapply Reach_units; [exact H|exact T|exact (XFn PPR)|unfold sj; cbn; lia]).
+        assert (HJ : AtS (adv sj 1) (qq :: rest)).
+        { rewrite <- K2. change (skipn k' r) with (skipn (1 + k') (b :: r)).
+          apply (At_move data s _ (b :: r) (1 + k') H); [unfold sj; cbn; lia|cbn [length]; lia]. }
+        assert (R2 : ReachS (hc, PTok TStr) (adv sj 1) (hc, PAfter) (adv (adv sj 1) 1)).
+        { eapply Reach_silent; [exact HJ|]. rewrite <- AF.
+          pose proof (ptok_go false hc TStr qq eq_refl (proj2 PL TStr)) as G.
+          assert (TS : tok_step TStr qq = TEnd) by (cbn; change (is ch_quote qq) with (isb 34 qq); rewrite QQ; reflexivity).
+          rewrite TS in G. exact G. }
+        split; [cbn [length]; lia|]. eexists. split; [eapply Reach_trans; [exact R1|exact R2]|].
+        split; [unfold sj; cbn; lia|]. split; [|reflexivity].
+        unfold sj. destruct I as (L & TP & CP & EE & MD0). unfold Inv. cbn. auto.
+    - (* other scalars: the handler is only told *)
+      rewrite HU0 in T.
+      assert (R1 : ReachS q s (hc, PTok t) (adv (called s c) 1))
+        by (eapply Reach_units; [exact H|exact T|exact XS|cbn; lia]).
+      specialize (SRS (adv (called s c) 1) H1 eq_refl).
+      destruct (scalar_tok (b :: r)) as [n|].
+      + destruct SRS as (m & -> & LM & R2). split; [cbn [length]; lia|].
+        eexists. split; [eapply Reach_trans; [exact R1|exact R2]|]. split; [cbn; lia|]. split; [|reflexivity].
+        apply Inv_adv. apply Inv_adv. apply Inv_called. exact I.
+      + eapply Reach_Ends_some; [exact R1|]. apply Ends_Any_Some. exact SRS.
+  Qed.
+End Handler.
